@@ -15,6 +15,7 @@ import (
 	"math/rand"
 	"sort"
 	"strings"
+	"time"
 
 	"github.com/attestantio/go-eth2-client/api"
 	v1 "github.com/attestantio/go-eth2-client/api/v1"
@@ -86,6 +87,7 @@ type scen struct {
 	family    string
 	perm      int // N=4: index of the permutation of the message list (-1: by family)
 	validator bool
+	queue     bool // through Validator.HandleMessage, the role's queue and the real consumer goroutine
 }
 
 func (s scen) String() string {
@@ -93,11 +95,14 @@ func (s scen) String() string {
 	for _, k := range s.kinds {
 		ks = append(ks, k.name)
 	}
-	return fmt.Sprintf("N=%d phase=%s operator=%d bad=%v kinds=%v corrupt=%d order=%s perm=%d validator=%v", s.n, s.ph.name, s.u, s.bad, ks, s.which, s.family, s.perm, s.validator)
+	return fmt.Sprintf("N=%d phase=%s operator=%d bad=%v kinds=%v corrupt=%d order=%s perm=%d validator=%v queue=%v", s.n, s.ph.name, s.u, s.bad, ks, s.which, s.family, s.perm, s.validator, s.queue)
 }
 
 func Spec() *evid.Spec {
-	setup := func(ch *evid.Child) { ch.Data = &state{env: dsim.NewEnv(), verified: map[[32]byte]bool{}} }
+	setup := func(ch *evid.Child) {
+		ch.Data = &state{env: dsim.NewEnv(), verified: map[[32]byte]bool{}}
+		dsim.QueueWatchdog = 30 * time.Second
+	}
 	return &evid.Spec{
 		ID:    "C05",
 		Level: "exploration",
@@ -242,6 +247,7 @@ func tableScen(c *evid.Case, n int) scen {
 		}
 	}
 	s.validator = c.Rng.Intn(4) == 0
+	s.queue = !s.validator && c.Rng.Intn(6) == 0
 	return s
 }
 
@@ -250,6 +256,7 @@ func sampledScen(c *evid.Case) scen {
 	n := []int{10, 13}[rng.Intn(2)]
 	f := (n - 1) / 3
 	s := scen{n: n, ph: phases[rng.Intn(len(phases))], perm: -1, family: families[rng.Intn(len(families))], validator: rng.Intn(4) == 0}
+	s.queue = !s.validator && rng.Intn(6) == 0
 	if s.ph.deneb && rng.Intn(2) == 0 {
 		s.ph = phases[rng.Intn(len(phases))] // Deneb values are large: sampled at half the rate
 	}
@@ -343,6 +350,9 @@ func runHist(st *state, rng *rand.Rand, c reporter, sample bool, s scen) *histo 
 	if s.validator {
 		mode = "validator"
 	}
+	if s.queue {
+		mode = "queue"
+	}
 	cl := dsim.NewCluster(st.env, rng, dsim.Config{N: s.n, Mode: mode, Blinded: s.ph.blinded, Only: []int{int(s.u) - 1}})
 	defer cl.Close()
 	h := &histo{c: c, rng: rng, sample: sample, st: st, s: s, cl: cl, op: cl.Ops[s.u-1]}
@@ -382,7 +392,13 @@ func runHist(st *state, rng *rand.Rand, c reporter, sample bool, s scen) *histo 
 			return nil
 		}
 		h.value = dsim.ValueFor(role, h.duty.Slot, 0, s.ph.blinded)
-		dm := st.env.Decided(cl.KS, h.id[:], specqbft.Height(h.duty.Slot), 1, h.value, dsim.FirstSigners(s.n, int(cl.KS.Threshold)))
+		decRound := specqbft.Round(1)
+		if s.queue {
+			// the consumer's pop filter holds commit-type messages of the operator's own (height, round) back until a proposal is
+			// accepted: the committee decided one round later than the round this operator is in
+			decRound = 2
+		}
+		dm := st.env.Decided(cl.KS, h.id[:], specqbft.Height(h.duty.Slot), decRound, h.value, dsim.FirstSigners(s.n, int(cl.KS.Threshold)))
 		if err := cl.Deliver(h.op, dsim.WrapConsensus(h.id, dm), "setup-decided"); err != nil {
 			c.Inconclusive("harness: genuine decided message rejected: " + err.Error())
 			return nil
@@ -416,6 +432,21 @@ func runHist(st *state, rng *rand.Rand, c reporter, sample bool, s scen) *histo 
 		c.Count("msg_"+p.label, 1)
 	}
 	h.setupSubmits = setupSubmits
+	if s.queue {
+		c.Count("histories_via_queue_consumer", 1)
+		if cl.QueueMismatch > 0 {
+			c.Inconclusive(fmt.Sprintf("queue mode: the consumer handled %d messages the driver had not queued", cl.QueueMismatch))
+			return h
+		}
+		if cl.QueueStuck && h.op.QueueRealLen(role) == 0 {
+			c.Inconclusive("queue mode: a predicted pop did not complete within the watchdog although the queue is empty (loaded machine?)")
+			return h
+		}
+		if cl.QueueStuck {
+			// the consumer left a message in the queue that the documented pop filter admits: whatever that costs is judged below
+			c.Count("queue_consumer_left_admissible_message", 1)
+		}
+	}
 	h.judge(list, setupSubmits)
 	return h
 }
